@@ -9,8 +9,11 @@ collisions; the writer is unconditional (no refusal).
 
 Tie (every run): the `PYDJINNI_VERIF=1` write log of one whole run (parse + every target) of the real
 API on programs that stress same names across namespaces, names that collide after conversion
-(`foo_bar`/`foo__bar`, letter case), `x` + `+t x_base`, equal inline function signatures in different
-namespaces, x file-naming configurations; compared with the model's predicted multiset of written
+(`foo_bar`/`foo__bar`, letter case), `x` + `+t x_base`, equal inline function signatures (under different
+parameter names) in the same, sibling and enclosing namespaces, declarations laid out as namespace *trees*
+(dotted and nested blocks mixed, declarations behind inner blocks), x file-naming configurations;
+the declarations given to the model carry the namespace read off the *source text* at their position
+(`sysgen.namespace_scopes`), not the one the parser assigned; compared with the model's predicted multiset of written
 paths; every path the implementation writes twice with different contents must be a collision the
 model predicts (with its cause), and conversely.
 
@@ -70,6 +73,21 @@ CORPUS = [
     {"name": "the same inline function type in two files", "naming": "default",
      "text": "@import \"lib.pydjinni\"\ni = interface +cpp { m0(cb: (a0: i32) -> bool); }\n",
      "more": {"proj/lib.pydjinni": "j = interface +cpp { m0(cb: (a0: i32) -> bool); }\n"}},
+    # namespace trees: a dotted block that holds an inner block and declarations *behind* it; the same inline function
+    # signature under different parameter names in the enclosing / a sibling namespace
+    {"name": "inline function behind an inner block of a dotted block", "naming": "default",
+     "text": "namespace core {\n  h = interface +cpp { m0(cb: (x0: i32) -> bool); }\n}\n"
+             "namespace core.util {\n  namespace model {\n    r = record { f0: i32; }\n  }\n  g = interface +cpp { m0(cb: (len0: i32) -> bool); }\n}\n"},
+    {"name": "three-component dotted block, two inner blocks, declarations between and behind", "naming": "default",
+     "text": "namespace data.core.util {\n  namespace net {\n    s = enum { item_a; }\n  }\n  t = interface +java { m0(cb: (a0: string)); }\n"
+             "  namespace ui_kit {\n    u = record { f0: string; }\n  }\n  v = interface +java { m0(p0: i32, cb: (pct0: string)); }\n}\n"
+             "namespace data {\n  w = interface +java { m0(cb: (x0: string)); }\n  namespace core {\n    y = interface +java { m0(cb: (len0: string)); }\n  }\n}\n"},
+    # namespace names are names too: spellings that an identifier style maps to one name, equally named declarations inside
+    {"name": "namespaces that differ in letter case", "naming": "default",
+     "text": "namespace Net {\n  message = record { f0: i32; }\n  state = enum { item_a; }\n}\nnamespace net {\n  message = record { f0: string; }\n  state = enum { item_b; }\n}\n"},
+    {"name": "namespaces that differ in word separators", "naming": "random",
+     "text": "namespace ui_kit.core {\n  view = record { f0: i32; }\n}\nnamespace uiKit {\n  namespace core {\n    view = record { f0: string; }\n  }\n}\n"
+             "namespace ui__kit.core {\n  view = record { f0: bool; }\n}\n"},
     {"name": "letter case", "naming": "default",
      "text": "alpha = record { f0: i32; }\nAlpha = record { f0: string; }\n"},
 ]
@@ -101,18 +119,48 @@ def corpus_case(c):
         {"stress": "corpus:" + c["name"], "naming": c["naming"], "targets": list(sysgen.TARGETS), "features": []}
 
 
-def evaluate(ctx, job, meta, obs, tables):
+def source_decls(job, defs):
+    """The declarations the run is *about*: what the parser handed to the generators, with the namespace of each
+    declaration read off the source text at the declaration's position (block structure only, `sysgen.namespace_scopes`).
+    "Distinct declarations" in the C15 statement are distinct in the source; a front end that files a declaration under
+    another namespace must not turn an overwrite into an (excusable) duplicate. -> (declarations, indices that differ)"""
+    scopes, out, moved = {}, [], []
+    for i, d in enumerate(defs):
+        src = d.get("src") or {}
+        text = job["files"].get(src.get("file"))
+        if text is None or src.get("line") is None:
+            out.append(d)
+            continue
+        if src["file"] not in scopes:
+            scopes[src["file"]] = sysgen.namespace_scopes(text)
+        ns = list(scopes[src["file"]](src["line"], src["col"]))
+        if ns != d["ns"]:
+            moved.append(i)
+        out.append({**d, "ns": ns})
+    return out, moved
+
+
+def requests(job, meta, obs, tables):
     parse = obs["calls"][0]
     log = [[e[1], e[2]] for c in obs["calls"] for e in c["log"]]
-    s = ctx.driver.one({"op": "c15.spec", "log": log})
-    m = ctx.driver.one({"op": "c15.names", "gens": obs["cfg"][0], "targets": meta["targets"], "defs": parse.get("defs", []),
-                        "support": tables["support"], "supportLib": obs["meta"][0]["supportLib"]})
+    sdefs, _ = source_decls(job, parse.get("defs", []))
+    return [{"op": "c15.spec", "log": log},
+            {"op": "c15.names", "gens": obs["cfg"][0], "targets": meta["targets"], "defs": sdefs,
+             "support": tables["support"], "supportLib": obs["meta"][0]["supportLib"]}]
+
+
+def evaluate(ctx, job, meta, obs, tables, answers=None):
+    parse = obs["calls"][0]
+    log = [[e[1], e[2]] for c in obs["calls"] for e in c["log"]]
+    pdefs = parse.get("defs", [])
+    sdefs, moved = source_decls(job, pdefs)
+    s, m = answers if answers is not None else ctx.driver.batch(requests(job, meta, obs, tables))
     for a in (s, m):
         if "error" in a:
             raise RuntimeError(f"driver error {a}")
     fails = []
     for c, rec in zip(job["calls"], obs["calls"]):
-        if not rec["ok"]:
+        if not rec["ok"] and not rec.get("skipped"):
             fails.append({"key": "run-failed:" + (rec["exc"] or {}).get("cls", "diagnostics"), "detail": json.dumps(rec.get("exc") or rec["diags"][:2])[:300]})
     by_path = {}
     for c in m["collisions"]:
@@ -120,12 +168,16 @@ def evaluate(ctx, job, meta, obs, tables):
     for p in s["overwritten"]:
         cs = [c for c in by_path.get(p, []) if c["cause"] != "duplicate-declaration"] or by_path.get(p, [])
         if not cs:
-            fails.append({"key": "overwrite:unexplained", "detail": p, "path": p})
+            why = ""
+            if moved:
+                why = " — declared in one namespace, generated under another: " + ", ".join(
+                    f"{qn(sdefs, i)} ({pdefs[i]['src']['file']}:{pdefs[i]['src']['line']}) as {qn(pdefs, i)}" for i in moved[:3])
+            fails.append({"key": "overwrite:unexplained", "detail": p + why, "path": p})
             continue
         c = cs[0]
         key = f"overwrite:{c['g']}:namespace-dropped" if c["cause"] == "namespace-dropped" else \
               (f"overwrite:{c['g']}:{c['cause']}" if c["cause"] == "concatenation" else f"overwrite:{c['cause']}")
-        defs = parse.get("defs", [])
+        defs = sdefs
         fails.append({"key": key, "detail": f"{p} receives the files of {qn(defs, c['first'])} and {qn(defs, c['second'])} ({c['g']}, {c['kind']})",
                       "path": p, "collision": c})
     # correspondence
@@ -134,6 +186,9 @@ def evaluate(ctx, job, meta, obs, tables):
     if ipaths != sorted(m["writes"]):
         diffs.append({"what": "written paths (multiset)", "only_impl": sorted(set(ipaths) - set(m["writes"]))[:5],
                       "only_model": sorted(set(m["writes"]) - set(ipaths))[:5], "n_impl": len(ipaths), "n_model": len(m["writes"])})
+    if moved:
+        diffs.append({"what": "namespace of a declaration: source text vs what the generators were given",
+                      "decls": [{"source": qn(sdefs, i), "given": qn(pdefs, i), "at": pdefs[i]["src"]} for i in moved[:5]]})
     predicted = set(c["path"] for c in m["collisions"] if c["cause"] != "duplicate-declaration")
     if not set(s["overwritten"]) <= set(by_path):
         diffs.append({"what": "overwritten path not predicted as a collision", "paths": sorted(set(s["overwritten"]) - set(by_path))[:5]})
@@ -152,14 +207,16 @@ def run(ctx):
                             "non-trivial = the model predicts at least one collision or the program has same-named declarations")
     tables = sysgen.live_tables(ctx)
     cases = [corpus_case(c) for c in CORPUS]
-    for i in range(ctx.n(90, 2000)):
+    for i in range(ctx.n(140, 2000)):
         cases.append(make_case(f"{ctx.seed}/c15/{i}"))
     results = sysgen.run_jobs(ctx, [c[0] for c in cases], tag="c15")
     breaks = []
-    for (job, meta), obs in zip(cases, results):
+    for obs in results:
         if "fatal" in obs:
             raise RuntimeError(f"worker failed: {obs['fatal']}")
-        s, m, fails, diffs, predicted = evaluate(ctx, job, meta, obs, tables)
+    answers = ctx.driver.batch([q for (job, meta), obs in zip(cases, results) for q in requests(job, meta, obs, tables)])
+    for k, ((job, meta), obs) in enumerate(zip(cases, results)):
+        s, m, fails, diffs, predicted = evaluate(ctx, job, meta, obs, tables, answers[2 * k: 2 * k + 2])
         causes = sorted(set(f"{c['g']}:{c['cause']}" for c in m["collisions"]))
         ctx.count(key=json.dumps([meta["stress"], meta["naming"], sorted(meta["targets"]), causes]), nontrivial=bool(m["collisions"]),
                   sample={"stress": meta["stress"], "naming": meta["naming"], "collisions": causes[:6], "overwritten": s["overwritten"][:3]})
@@ -192,4 +249,7 @@ def replay(ctx, body):
     obs = sysgen.run_jobs(ctx, [body["job"]], workers=1, tag="c15r")[0]
     s, m, fails, diffs, _ = evaluate(ctx, body["job"], body["meta"], obs, tables)
     print(json.dumps({"spec": s, "failures": fails, "model_vs_impl": diffs, "collisions": m["collisions"][:10]}, indent=1)[:4000])
-    return s["holds"]
+    key = (body.get("failure") or {}).get("key")
+    if key:     # the recorded failure: does a failure of the same shape occur again?
+        return not any(f["key"] == key for f in fails)
+    return s["holds"] and not diffs
